@@ -120,6 +120,23 @@ def cases(tier):
                 add("num", e, "exhaustive")
         if quick and d == 2:
             break
+    # a sign on every operand position of every chain of two and three binary operators (the shapes the exhaustive
+    # enumeration reaches only in the thorough tier): what the sign covers must not depend on what follows later
+    for ops_ in ([(a, b) for a in BINOPS for b in BINOPS] + [(a, b, c) for a in BINOPS for b in BINOPS for c in BINOPS]):
+        leaves = ["A", "B", "C", "2"][:len(ops_) + 1] if len(ops_) == 3 else ["B", "C", "2"]
+        for pos in range(len(leaves)):
+            ls = list(leaves)
+            ls[pos] = "-" + ls[pos]
+            e = ls[0] + "".join(o + l for o, l in zip(ops_, ls[1:]))
+            if e not in seen:
+                seen.add(e)
+                add("num", e, "exhaustive")
+    for a in BINOPS:
+        for b in BINOPS:
+            for e in (f"-(B{a}C){b}2", f"B{a}-(C{b}2)", f"-B{a}(C{b}2)", f"-B{a}ABS(C{b}2)", f"-B{a}C{b}ABS(A^2)", f"-B{a}SQR(C^2{b}A)"):
+                if e not in seen:
+                    seen.add(e)
+                    add("num", e, "exhaustive")
     # logical and relational operators, literal spellings, hex
     for e in ["A AND B", "A OR B", "NOT A", "A AND B OR C", "A OR B AND C", "NOT A AND B", "NOT A OR B", "A AND NOT B",
               "(A OR B) AND C", "A+B AND C*2", "-A AND B", "A=B", "A<>B", "(A=B)+1", "A<B AND B<C", "1E2", "1.5E+1", "2.5E-1",
